@@ -42,13 +42,26 @@ func (c13) Gen(seed int64, tier string, avoid []string) *Plan {
 	}
 	p.PoolDrop = pick(r, 0, 0, 200)
 	cfg.LibStallUs = int64(pick(r, 0, 0, -1, 300, 3000))
-	opt := rigTrafficOpts{nackBias: true, bigPayload: chance(r, 300)}
+	opt := rigTrafficOpts{nackBias: true, bigPayload: chance(r, 300), lifecycle: chance(r, 250), coincide: pick(r, 0, 0, 400)}
 	for _, k := range cfg.Kinds {
+		if k == "nack_resp" && chance(r, 500) {
+			opt.bigPayload = true // packets the responder's pooled buffers cannot hold
+		}
 		if k == "jitterbuffer" {
 			opt.longRemote = 60 + r.Intn(60) // the jitter buffer starts emitting after 50 packets
 		}
 	}
 	genRigTraffic(r, &cfg, p, tier, opt)
+	// RTX sequence numbers start at a value pion/rtp draws from an unseeded generator: they are masked where
+	// packets are compared, but a dump of a retransmission cannot be masked, so dump members see no RTX
+	for _, k := range cfg.Kinds {
+		if k == "dump_send" || k == "dump_recv" {
+			for i := range cfg.Local {
+				cfg.Local[i].RTX = false
+			}
+			p.Cfg = mustJSON(cfg)
+		}
+	}
 	return p
 }
 
